@@ -22,7 +22,6 @@ import (
 	"strings"
 )
 
-
 func runPosKeys(p *Prog, r *Report) {
 	n := 0
 	for _, c := range collectComparators(p) {
